@@ -207,7 +207,7 @@ Proof.
   dest. auto.
 Qed.
 
-Definition benign (o : op) : bool := match o with ORaise => false | _ => true end.
+Definition benign (o : op) : bool := match o with ORaise | OGetFURev false => false | _ => true end.
 Definition Clean (s : st) : Prop := k_reg s = true -> k_saved s = false.
 
 Lemma locking_read_nf : forall s, WF s -> NF s -> Clean s ->
@@ -285,6 +285,9 @@ Proof.
     + pose proof (get_cache_saved s) as Hgs. destruct (get_cache_spec s Hwf) as (s1 & Hg & _). rewrite Hg in *. cbn [snd] in Hgs.
       intros _. rewrite Hgs. destruct (k_reg s) eqn:E; auto.
     + apply locking_read_nf; auto.
+  - (* OGetFURev *) destruct locked; try discriminate. unfold bind. pose proof (get_cache_saved s) as Hgs.
+    destruct (get_cache_spec s Hwf) as (s1 & Hg & _). rewrite Hg in *. cbn [snd] in Hgs. unfold ret. intros _.
+    rewrite Hgs. destruct (k_reg s) eqn:E; auto.
 Qed.
 
 Lemma run_body_nf : forall b s, forallb (fun oc => benign (fst oc)) b = true -> WF s -> NF s -> Clean s ->
